@@ -176,7 +176,10 @@ WellFormedTLV(b) == Len(b) > 0 /\ ElemEnd(b, 1, 0) = Len(b) + 1
 (* C16: input classes that a decoder must report as an error, whatever else it accepts.               *)
 (*   ti = [k, tags] : kind of the target type and, for a CHOICE, the context tags of its members.    *)
 \* the indefinite-length form (length octet 80) is outside what a definite-length decoder is asked to judge
-Indefinite(b) == Len(b) >= 2 /\ ~IsTok(b[1]) /\ b[1] % 32 # 31 /\ b[2] = 128
+Indefinite(b) ==
+  Len(b) >= 2 /\ ~IsTok(b[1]) /\
+  LET t == IF b[1] % 32 < 31 THEN [ok |-> TRUE, tag |-> 0, next |-> 2] ELSE TagFrom(b, 2, 0, FALSE)
+  IN t.ok /\ t.next <= Len(b) /\ b[t.next] = 128
 MustError(b, ti) ==
   \/ Len(b) = 0
   \/ ~Indefinite(b) /\ LET h == HeaderS(b, 1, FALSE) IN
